@@ -23,6 +23,8 @@ FC = 'checksum::FastRollingChecksum'
 
 def obl_report(ctx, rid, method, m):
     """turn the machine's obligations into rule instances with line-free keys"""
+    if m is None:
+        return      # the method was outside the model: already reported as undecided
     seen = {}
     for o in m.obs:
         k = (o.kind, o.what)
@@ -56,8 +58,27 @@ def run_method(ctx, F, path, M, box, env, rid, method):
     try:
         m.run(env)
     except Unsupported as e:
-        from verdict import NoVerdict
-        raise NoVerdict('undecided: %s %s' % (path, e))
+        # outside the polynomial model: the interval/unrolling fallback still decides wrap-freedom (a wrap is a violation);
+        # that the result equals the definition stays undecided
+        import unroll
+        from flow import flow_of as _flow_of
+        uenv = {}
+        for i in range(1, b.argc + 1):
+            ty = b.local_ty(i)
+            if ty.replace(' ', '') in ('&[u8]',):
+                uenv[i] = ('slice', NMAX)
+            elif ty == 'u8':
+                uenv[i] = ('int', 0, 255)
+        obs, why = unroll.wrap_free(b, _flow_of(b).cfg, uenv, NMAX) if uenv else (None, 'no byte-slice parameter')
+        if obs is not None:
+            bad = sorted([o for o in obs if not o.ok], key=lambda o: (o.line or 0, o.what))
+            for i, o in enumerate(bad):
+                ctx.bad('C17.O1', '%s:wrap-free:%s#%d' % (method, o.what, i + 1),
+                        '%s: %s is not wrap-free for inputs of up to %d bytes: %s' % (method, o.what, NMAX, o.detail), 'src/checksum.rs:%s (%s)' % (o.line, method))
+            ctx.undecided(rid, '%s %s (interval fallback: %d arithmetic site(s) examined, %d may wrap; equality with the definition not decided)' % (path, e, len(obs), len(bad)))
+        else:
+            ctx.undecided(rid, '%s %s; fallback: %s' % (path, e, why))
+        return None
     return m
 
 
@@ -133,6 +154,8 @@ def inv_eager(ctx, m, method, M, fields, box):
 
 
 def spec_new(ctx, m, method, M, eager_inv, K=None):
+    if m is None:
+        return      # the method was outside the model: already reported as undecided
     objs = ret_obj(m)
     if not objs:
         ctx.bad('C17.O2', method + ':returns', '%s does not return a checksum state' % method, 'src/checksum.rs')
@@ -153,6 +176,8 @@ def spec_new(ctx, m, method, M, eager_inv, K=None):
 
 
 def spec_roll(ctx, m, method, M, eager_inv):
+    if m is None:
+        return      # the method was outside the model: already reported as undecided
     A, B, n, old, new = (Poly.sym(s) for s in ('A', 'B', 'n', 'old', 'new'))
     want_a = (A - old + new).mod(M)
     want_b = (B - n * old + A - old + new).mod(M)
@@ -166,6 +191,8 @@ def spec_roll(ctx, m, method, M, eager_inv):
 
 
 def spec_push(ctx, m, method, M, eager_inv):
+    if m is None:
+        return      # the method was outside the model: already reported as undecided
     A, B, n, v = (Poly.sym(s) for s in ('A', 'B', 'n', 'val'))
     want_a = (A + v).mod(M)
     want_b = (B + A + v).mod(M)
@@ -180,6 +207,8 @@ def spec_push(ctx, m, method, M, eager_inv):
 
 def spec_digest(ctx, m, method, M):
     """every return path: value == (Pb << 16) | Pa with Pa == a, Pb == b (mod M) and both in [0, M-1]"""
+    if m is None:
+        return      # the method was outside the model: already reported as undecided
     n = 0
     for env, box in m.returns:
         v = env.get(0)
@@ -210,6 +239,8 @@ def spec_digest(ctx, m, method, M):
 
 
 def spec_len(ctx, m, method):
+    if m is None:
+        return      # the method was outside the model: already reported as undecided
     ok = any(env.get(0) is not None and env[0][0] == 'p' and env[0][1] == Poly.sym('n') for env, box in m.returns)
     ctx.check(ok, 'C17.O4', method, 'len() == count', '%s does not return the window length' % method, 'src/checksum.rs')
 
